@@ -588,6 +588,29 @@ fn int_str(ctx: &mut Ctx, r: &mut Rng, _i: u64) {
         }
         Err(p) => ctx.violation(&format!("Int.from_str/{}", p.sig()), json!({"input": s, "msg": p.msg})),
     }
+    // the JSON form of an Int is its decimal text: the reader is one more way to obtain an Int, and is held to
+    // the same range and exactness
+    let j = serde_json::to_string(&s).unwrap_or_default();
+    match guard(|| Int::from_json(&j)) {
+        Ok(Ok(x)) => {
+            let got = int_value(&x);
+            if !int_range_ok(&got) {
+                ctx.violation("Int.from_json/out-of-range", json!({"input": j, "got": got.to_string()}));
+            } else if exact.as_ref() != Some(&got) {
+                ctx.violation("Int.from_json/accepted-different-number", json!({"input": j, "got": got.to_string()}));
+            } else {
+                ctx.bucket("Int.from_json.ok");
+            }
+        }
+        Ok(Err(_)) => {
+            if let Some(e) = &exact {
+                if int_range_ok(e) && is_plain_decimal(&s) {
+                    ctx.violation("Int.from_json/spurious-error", json!({"input": j}));
+                }
+            }
+        }
+        Err(p) => ctx.violation(&format!("Int.from_json/{}", p.sig()), json!({"input": j, "msg": p.msg})),
+    }
 }
 
 // ------------------------------------------------------------------------------------------------ BigInt
